@@ -194,6 +194,18 @@ def check_user(case):
                 v("user-alphabet-application", "user alphabet %s with alphabetSize=7: got %s" % (name, r2), ua=name)
         except Exception:  # noqa
             acc_dc = True  # noqa  (whether an invalid size is looked at together with a user alphabet is unspecified)
+        # ... also when the size given alongside is one of the twelve predefined ones (two valid options together)
+        for size in T.SIZES:
+            for sp in (size, float(size), str(size)):
+                calls += 1
+                try:
+                    r3, a3 = red(seq, alphabetSize=sp, userAlphabet=dict(ua))
+                except Exception as e:  # noqa
+                    v("valid-user-alphabet-rejected", "user alphabet %s together with alphabetSize=%r raised %r" % (name, sp, e), ua=name, size=size)
+                    continue
+                if r3 != exp or sorted(a3) != sorted(set(ua.values())):
+                    v("user-alphabet-application", "user alphabet %s together with alphabetSize=%r: got %s %r, the user alphabet alone gives %s"
+                      % (name, sp, r3, list(a3), exp), ua=name, size=size)
         # the same mapping with its keys inserted in other orders (a dict is a mapping: insertion order carries no meaning),
         # and with additional non-amino-acid keys (whether those are accepted is not specified; if accepted, the 20 must be applied)
         orders = {"reversed": list(reversed(T.AA)), "grouped-by-target": sorted(T.AA, key=lambda a: (ua[a], a)),
@@ -225,7 +237,9 @@ def check_user(case):
             d = dict(ua)
             del d[a]
             faults.append(("missing", d))
-            for badname, bad in (("lower", ua[a].lower()), ("X", "X"), ("empty", ""), ("int", 5), ("two-letters", "AA"), ("none", None)):
+            for badname, bad in (("lower", ua[a].lower()), ("X", "X"), ("empty", ""), ("int", 5), ("two-letters", "AA"), ("none", None),
+                                 ("padded-right", ua[a] + " "), ("padded-left", " " + ua[a]), ("newline", ua[a] + "\n"), ("tab", "\t" + ua[a]),
+                                 ("blank", " "), ("bytes", ua[a].encode()), ("list", [ua[a]]), ("tuple", (ua[a],))):
                 d = dict(ua)
                 d[a] = bad
                 faults.append((badname, d))
@@ -377,8 +391,8 @@ def run(tier, seed, t0):
              "residue's own group, one representative per group, exactly `size` of them, returned alphabet = representatives); "
              "sizes -1..26 and 6 non-integers (exactly the 12 accepted); length / concatenation / idempotence laws on %d word pairs "
              "x 12 sizes; 4 valid user alphabets applied residue by residue, each with every single fault (20 keys x {missing, "
-             "lower case, X, empty, int, two letters, None, and X / lower case / * that are ALSO keys of the dictionary}) and 6 non-dict arguments rejected; "
-             "a rejected alphabet (fault at each of the 20 positions) between two requests for the same size on one object, for all 12 sizes; one dictionary object edited in place between calls; "
+             "lower case, X, empty, int, two letters, None, whitespace-padded letters, bytes, one-element list/tuple, and X / lower case / * that are ALSO keys of the dictionary}) and 6 non-dict arguments rejected; "
+             "each valid alphabet together with each of the 12 predefined sizes (int, float, string); a rejected alphabet (fault at each of the 20 positions) between two requests for the same size on one object, for all 12 sizes; one dictionary object edited in place between calls; "
              "each valid alphabet also with its keys inserted in 5 other orders, with and without extra non-amino-acid keys (same result); "
              "dont-care: whether extra keys with valid targets are accepted, empty "
              "containers; non-trivial = all but single-letter law cases" % len(pairs),
